@@ -447,6 +447,102 @@ func guardedAt(fn *ssa.Function, at ssa.Instruction, v ssa.Value, nd need) (ssa.
 	return nil, false
 }
 
+// validatedByHelper: fn calls a module function g(…, v, …) that returns an error, continues to `at`
+// only on the no-error edge, and g returns a nil error only where a comparison establishes nd
+// for the corresponding parameter (checkParams-style validators).
+func validatedByHelper(fn *ssa.Function, at ssa.Instruction, v ssa.Value, nd need, depth int) (ssa.Instruction, bool) {
+	if depth > 2 {
+		return nil, false
+	}
+	var found ssa.Instruction
+	allInstrs(fn, func(in ssa.Instruction) {
+		if found != nil {
+			return
+		}
+		call, ok := in.(*ssa.Call)
+		if !ok {
+			return
+		}
+		g := call.Call.StaticCallee()
+		if g == nil || g.Blocks == nil || !ModuleFunc(g) {
+			return
+		}
+		res := g.Signature.Results()
+		if res.Len() == 0 || !types.Identical(res.At(res.Len()-1).Type(), errorType) {
+			return
+		}
+		// the error value of this call
+		var errV ssa.Value
+		if res.Len() == 1 {
+			errV = call
+		} else {
+			for _, r := range *call.Referrers() {
+				if ex, ok := r.(*ssa.Extract); ok && ex.Index == res.Len()-1 {
+					errV = ex
+				}
+			}
+		}
+		if errV == nil {
+			return
+		}
+		for ai, a := range call.Call.Args {
+			if ai >= len(g.Params) || !(a == v || relatedTo(a, v, 0)) {
+				continue
+			}
+			if !helperValidates(g, g.Params[ai], nd, depth) {
+				continue
+			}
+			for _, b := range fn.Blocks {
+				ifi, ok := b.Instrs[len(b.Instrs)-1].(*ssa.If)
+				if !ok {
+					continue
+				}
+				e, errEdge, ok := errTest(ifi.Cond)
+				if !ok || e != errV {
+					continue
+				}
+				si := 1
+				if !errEdge {
+					si = 0
+				}
+				if edgeDominatesNoFatal(b, b.Succs[si], at.Block()) {
+					found = in
+				}
+			}
+		}
+	})
+	return found, found != nil
+}
+
+func helperValidates(g *ssa.Function, par *ssa.Parameter, nd need, depth int) bool {
+	n, okAll := 0, true
+	allInstrs(g, func(in ssa.Instruction) {
+		ret, ok := in.(*ssa.Return)
+		if !ok || len(ret.Results) == 0 {
+			return
+		}
+		last := ret.Results[len(ret.Results)-1]
+		if _, isMI := last.(*ssa.MakeInterface); isMI {
+			return // a concrete error value: non-nil
+		}
+		if call, isCall := last.(*ssa.Call); isCall {
+			switch calleeName(call.Common()) {
+			case "errors.New", "fmt.Errorf":
+				return
+			}
+		}
+		n++
+		if _, ok := guardedAt(g, ret, par, nd); ok {
+			return
+		}
+		if _, ok := validatedByHelper(g, ret, par, nd, depth+1); ok {
+			return
+		}
+		okAll = false
+	})
+	return okAll && n > 0
+}
+
 // validated decides whether v is known to satisfy nd at instruction `at` (in function fn).
 func (d *discharger) validated(fn *ssa.Function, at ssa.Instruction, v ssa.Value, nd need, depth int, trail *[]string) bool {
 	if depth > 12 {
@@ -464,6 +560,10 @@ func (d *discharger) validated(fn *ssa.Function, at ssa.Instruction, v ssa.Value
 	}
 	if cst, ok := v.(*ssa.Const); ok && cst.Value != nil && cst.Value.Kind() == constant.Float {
 		return constant.Sign(cst.Value) > 0
+	}
+	if g, ok := validatedByHelper(fn, at, v, nd, 0); ok {
+		*trail = append(*trail, fmt.Sprintf("validating helper called at %s in %s", d.p.InstrPos(g), FuncName(fn)))
+		return true
 	}
 	if g, ok := guardedAt(fn, at, v, nd); ok {
 		*trail = append(*trail, fmt.Sprintf("guard at %s in %s", d.p.InstrPos(g), FuncName(fn)))
